@@ -465,3 +465,39 @@ Print Assumptions legacy_pspace_agrees_with_numpy_partial.
 Theorem legacy_pspace_agrees_with_numpy_refuted :
   exists t : @ptree Q, legacy1 castQ Fhalf (lop_f LHalf) t <> numpy1 Fhalf (lop_f LHalf) t.
 Proof. exact legacy_vs_numpy_refuted. Qed.
+
+(* ------------------------------------------------------------------------
+   Power-space elements through the NumPy API (ProductSpaceElement.__array__ /
+   __array_wrap__; model [wrap_pspace]/[pspace_np] in C17/Legacy.v, tied by
+   the `pspace` case set).  n parts of shape s, space dtype d, r = what NumPy
+   computes on the arrays. *)
+
+(* A result with the shape of the element (every __call__ without broadcast
+   growth, accumulate) is wrapped into the same space with NumPy's numbers
+   converted to the dtype of the space ... *)
+Theorem pspace_wrap_same_shape :
+  forall (T : Type) (cast : dt -> dt -> T -> T) (n : nat) (s : list nat) (d : dt) (r : @narr T),
+  a_shape r = n :: s ->
+  wrap_pspace cast n s d r = Ok (WElem d (n :: s) (map (conv cast (a_dt r) d) (a_data r))).
+Proof. exact @wrap_same_shape. Qed.
+(* ... hence exactly NumPy's numbers (and dtype) when the result dtype is the
+   space dtype; otherwise they are converted (findings
+   pspace-result-dtype-forced-to-space-dtype,
+   pspace-integer-space-truncates-float-results). *)
+Theorem pspace_wrap_same_shape_and_dtype :
+  forall (T : Type) (cast : dt -> dt -> T -> T) (n : nat) (s : list nat) (r : @narr T),
+  a_shape r = n :: s ->
+  wrap_pspace cast n s (a_dt r) r = Ok (WElem (a_dt r) (n :: s) (a_data r)).
+Proof. exact @wrap_same_shape_dtype. Qed.
+Print Assumptions pspace_wrap_same_shape_and_dtype.
+
+(* FULL STATEMENT (FALSE): "reduce results are wrapped in a space of matching
+   shape".  For EVERY power space with at least two parts, of any part shape,
+   the result of reduce over the component axis (NumPy's default axis 0), which
+   has the shape of one part, is refused with ValueError (finding
+   pspace-reduce-not-wrapped). *)
+Theorem pspace_reduce_never_wrapped_refuted :
+  forall (T : Type) (cast : dt -> dt -> T -> T) (n : nat) (s : list nat) (d : dt) (r : @narr T),
+  (2 <= n)%nat -> s <> [] -> a_shape r = s -> wrap_pspace cast n s d r = Err EValue.
+Proof. exact @wrap_part_shape_fails. Qed.
+Print Assumptions pspace_reduce_never_wrapped_refuted.
